@@ -23,8 +23,11 @@ pub use super::util::{counters, message, Counters};
 /// `Arc<String>` allocated in a typed static arena (see `typed_arc!` in mod.rs for why): the offset
 /// file path is read back through this Arc on every later store, and a heap `Arc` whose reference
 /// count has been touched is no longer constant-folded by CBMC, which makes every file lookup symbolic.
+/// The strong count starts at 2: an arena slot is never released (dropping the last `Arc` of a deleted
+/// offset would otherwise hand a static object to the deallocator, which Kani rightly rejects - that
+/// was a false alarm of the two thorough delete harnesses, corrected here).
 static mut PATH_ARENA: [crate::verif::TypedArcInner<String>; 8] = [const {
-    crate::verif::TypedArcInner { strong: core::sync::atomic::AtomicUsize::new(1), weak: core::sync::atomic::AtomicUsize::new(1), data: String::new() }
+    crate::verif::TypedArcInner { strong: core::sync::atomic::AtomicUsize::new(2), weak: core::sync::atomic::AtomicUsize::new(1), data: String::new() }
 }; 8];
 static mut PATH_ARENA_NEXT: usize = 0;
 
